@@ -87,7 +87,7 @@ def scales(nl, phi, cur):
 
 
 def rtol_for(palette):
-    return 1e-6 if palette == "dec" else 1e-9
+    return 1e-6 if palette in ("dec", "wide") else 1e-9
 
 
 def id_schemes(b, full):
